@@ -288,17 +288,17 @@ Definition map_eval (ev1 : expr -> M cell) : list expr -> M (list cell) :=
 Definition take_rnd : M fl :=
   fun s => match s_rnd s with
            | v :: r => Ok v (set_script s (s_lines s) r (s_timer s) (s_lastrnd s))
-           | [] => Stuck 4
+           | [] => Err EExhausted 0 s
            end.
 Definition take_timer : M fl :=
   fun s => match s_timer s with
            | v :: r => Ok v (set_script s (s_lines s) (s_rnd s) r (s_lastrnd s))
-           | [] => Stuck 4
+           | [] => Err EExhausted 0 s
            end.
 Definition take_line : M str :=
   fun s => match s_lines s with
            | v :: r => Ok v (set_script s r (s_rnd s) (s_timer s) (s_lastrnd s))
-           | [] => Stuck 4
+           | [] => Err EExhausted 0 s
            end.
 Definition set_lastrnd (v : fl) : M unit :=
   fun s => Ok tt (set_script s (s_lines s) (s_rnd s) (s_timer s) (Some v)).
@@ -503,9 +503,13 @@ Definition read_item (t : vty) (it : ditem) : M cell :=
     end
   end.
 
+(* a negative cursor only arises with quirk Q_RESTORE_WRAP: position
+   cursor + number of items, running on into position 0 *)
 Definition next_data : M ditem :=
-  fun s => if s_data s <? 0 then Stuck 2 else
-           match nth_error (all_data (p_main P)) (Z.to_nat (s_data s)) with
+  fun s => let total := Z.of_nat (length (all_data (p_main P))) in
+           let pos := if s_data s <? 0 then s_data s + total else s_data s in
+           if pos <? 0 then Stuck 2 else
+           match nth_error (all_data (p_main P)) (Z.to_nat pos) with
            | Some it => Ok it (set_data s (s_data s + 1))
            | None => Err EOutOfData 0 s
            end.
@@ -869,7 +873,10 @@ with exec (fuel : nat) (s : stmt) : M signal :=
       ret SigNormal
     | SRestore ln l =>
       match l with
-      | None => (fun s => Ok SigNormal (set_data s 0))
+      | None =>
+        if q Q_RESTORE_WRAP
+        then (fun s => Ok SigNormal (set_data s (- Z.of_nat (length (all_data (p_main P))))))
+        else (fun s => Ok SigNormal (set_data s 0))
       | Some lbl =>
         match data_before_label lbl (p_main P) 0 with
         | Some n => (fun s => Ok SigNormal (set_data s n))
